@@ -945,14 +945,15 @@ theorem C12_ack_lock_structure_is_source :
         ["ping", "processPublish", "sendPublish", "sendPublish", "subscribe", "unsubscribe"]) ∧
     (some Mqtt.Generated.ackHelper = deferredShape ((procProgram.drop 1).dropLast.map POp.code) ∧
       Mqtt.Generated.ackAckSites = ["ack"] ∧
-      Mqtt.Generated.ackProcessIncomingOutside = 0 ∧
+      Mqtt.Generated.ackProcessIncomingOutside = 0 ∧ Mqtt.Generated.ackIrregular = 0 ∧
       (∀ c ∈ Mqtt.Generated.ackProcessIncoming, c.2.head? = some 10 ∧ c.2.tail.all (fun x => x == 11 || x == 3)) ∧
       (∀ name ∈ ["PubackMessage", "PubcompMessage", "SubackMessage", "UnsubackMessage", "PingrespMessage"],
         Mqtt.Generated.ackProcessIncoming.lookup name = some [10, 11])) := by
   have hs := facts_senders
   have hp := facts_processor
-  exact ⟨⟨hs.1, hs.2.1, hs.2.2.1, hs.2.2.2.1, hs.2.2.2.2.2.1, hs.2.2.2.2.2.2.1, hs.2.2.2.2.2.2.2.2.1,
-    hs.2.2.2.2.2.2.2.2.2.1⟩, hp.1, hp.2.1, hp.2.2.2.2.1, hp.2.2.2.2.2.2.1, hp.2.2.2.2.2.2.2⟩
+  obtain ⟨s1, s2, s3, s4, _, _, s7, s8, _, s10, s11, _⟩ := hs
+  obtain ⟨p1, p2, _, _, p5, _, p7, _, p9, p10⟩ := hp
+  exact ⟨⟨s1, s2, s3, s4, s7, s8, s10, s11⟩, p1, p2, p5, p7, p9, p10⟩
 
 end AckLock
 
